@@ -57,6 +57,9 @@ func main() {
 			for _, a := range os.Args[2:] {
 				if strings.HasSuffix(k, a) {
 					fn.WriteTo(os.Stdout)
+					for _, af := range fn.AnonFuncs {
+						af.WriteTo(os.Stdout)
+					}
 				}
 			}
 		}
